@@ -68,3 +68,35 @@ Definition check_case (c : case) : Z :=
   let (s, mo) := run (rs_init mr mt) tr in
   if negb (list_eqb Bool.eqb outs mo) then 2
   else if (R s =? r) && opt_eqb Z.eqb (T s) t then 0 else 1.
+
+(* ---- the start-up burst of Supervisor.body: for ten passes, one every tenth of a second, the
+   pool's limiter is replaced by a fresh one with budget 10 * slots and a window of one second
+   (clock in tenths: window 10).  A pass creates workers one by one; a creation that is charged
+   consults the limiter first, and a raise ends the supervisor before that fork. *)
+Definition burst_state (slots : Z) (second : Z) : rs := rs_init (Some (10 * slots)) second.
+
+Fixpoint burst_pass (s : rs) (now : Z) (need : list bool) (forks : nat) : rs * nat * bool :=
+  match need with
+  | [] => (s, forks, false)
+  | charged :: r =>
+    if charged then
+      let (s1, raised) := step s now in
+      if raised then (s1, forks, true) else burst_pass s1 now r (S forks)
+    else burst_pass s now r (S forks)
+  end.
+
+(* forks per pass, and the (1-based) pass that raised *)
+Fixpoint burst (s : rs) (now : Z) (k : nat) (passes : list (list bool)) : list nat * option nat :=
+  match passes with
+  | [] => ([], None)
+  | need :: r =>
+    let '(s1, forks, raised) := burst_pass s now need O in
+    if raised then ([forks], Some k)
+    else let (fs, ra) := burst s1 (now + 1) (S k) r in (forks :: fs, ra)
+  end.
+
+Definition burst_case := (Z * Z * list (list bool) * (list nat * option nat))%type.
+Definition check_burst_case (c : burst_case) : Z :=
+  let '(slots, t0, passes, (forks, raised)) := c in
+  let (mf, mr) := burst (burst_state slots 10) t0 1 passes in
+  if list_eqb Nat.eqb mf forks && opt_eqb Nat.eqb mr raised then 0 else 3.
